@@ -339,10 +339,18 @@ def existing_tests(ctx, pkgs):
                            text=True, errors="replace", timeout=1200)
     except subprocess.TimeoutExpired:
         raise vlib.MachineryError("existing tests timed out: %s" % " ".join(cmd))
-    if p.returncode != 0:
-        raise vlib.MachineryError("existing tests did not pass (no verdict): %s\n%s" % (" ".join(cmd), p.stdout[-3000:]))
+    passed = set(re.findall(r"^ok\s+github.com/bfenetworks/bfe/(\S+)", p.stdout, flags=re.M))
+    failed = [rel for rel in pkgs if rel not in passed]
+    if p.returncode != 0 or failed:
+        # no verdict from a package whose own tests fail; the traces of the others are still validated and the
+        # failure is raised by the caller unless another stage has a verdict
+        ctx.xt_error = "existing tests did not pass in %s (no verdict from them): %s\n%s" % (
+            failed or "?", " ".join(cmd), p.stdout[-2500:])
     out, stats, ooc = [], {}, []
     for rel in pkgs:
+        if rel in failed:
+            stats[rel] = {"tests": 0, "pipes": 0, "events": 0, "failed": True}
+            continue
         files = glob.glob("%s.%s.*" % (trace, TEST_PKGS[rel]))
         lines = [json.loads(l) for f in files for l in open(f) if l.strip()] if len(files) == 1 else []
         if not lines:
@@ -432,8 +440,13 @@ def check_c21(ctx):
     cases += gen(ctx, g1, mode="sim", num=400 if q else 4000, depth=24)
     conc = scenarios(ctx, 300 if q else 3000)
     # 3. the pipes the repository's existing tests create (quick: the pipe package's own tests only)
+    ctx.xt_error = None
     ext = existing_tests(ctx, ["bfe_util/pipe"] if q else ["bfe_http2", "bfe_spdy", "bfe_util/pipe"])
     run_all(ctx, cases, conc, label="C21", ext=ext)
+    if ctx.xt_error:
+        if not ctx.violations:
+            raise vlib.MachineryError(ctx.xt_error)
+        ctx.notes.append(ctx.xt_error[:600])
 
 
 PROPS = {"C21": check_c21}
@@ -442,6 +455,7 @@ PROPS = {"C21": check_c21}
 def replay(ctx, pid, rep):
     c = rep["case"]
     mode, case = c["mode"], c.get("case")
+    ctx.xt_error = None
     if mode == "tests":
         ext = [x for x in existing_tests(ctx, [case["pkg"]]) if set(x[0]["tests"]) & set(case["tests"])]
         n = run_all(ctx, [], [], label="replay", selftest=False, ext=ext)
